@@ -33,6 +33,7 @@ Environment (all optional):
                      "reports": {instance: [state|null...]},  # successive check_jobs answers, last repeats
                      "submit_by_prefix" / "reports_by_prefix": {step template: [...]}  # for every instance of it
                      "default": "FINISHED",
+                     "faults": [{"call": "submit", "n": 2, "exc": "OSError"}],   # optional: that call raises
                      "after_cancel": "CANCELLED",      # optional: what jobs given to cancel_jobs report from then on
                      "qcodes":  ["OK", ...]}           # per check_jobs call, last repeats (default OK)
                   The log also receives {"call": "poll", "k": k} at every POLL sleep and, per write_script
@@ -117,11 +118,22 @@ def _register_scripted(path):
     from maestrowf.interfaces.script import SubmissionRecord, CancellationRecord
     log = cfg.get("log")
     _state["adapter_log"] = log
-    st = {"next": 1000, "job_inst": {}, "nsub": {}, "nrep": {}, "nq": 0, "cancelled": set()}
+    st = {"next": 1000, "job_inst": {}, "nsub": {}, "nrep": {}, "nq": 0, "cancelled": set(), "ncall": {}}
 
     def rec(obj):
         if log:
             _append(log, json.dumps(obj))
+
+    def fault(kind, inst=None):
+        """cfg["faults"] = [{"call": "write_script"|"submit"|"check_jobs"|"cancel_jobs", "n": k, "exc": "OSError"}]:
+        the k-th call (0-based) of that kind raises the named exception (the adapter command blew up)"""
+        n = st["ncall"].get(kind, 0)
+        st["ncall"][kind] = n + 1
+        for f in cfg.get("faults", []):
+            if f["call"] == kind and f["n"] == n:
+                rec({"call": "fault", "in": kind, "n": n, "inst": inst, "exc": f.get("exc", "OSError")})
+                raise {"OSError": OSError, "ValueError": ValueError, "RuntimeError": RuntimeError,
+                       "KeyError": KeyError}.get(f.get("exc"), OSError)("scripted fault in %s #%d" % (kind, n))
 
     def lookup(table, inst, cwd=None):
         """exact instance name, else the longest step-template name T with inst == T or inst = T_<combo>,
@@ -148,6 +160,7 @@ def _register_scripted(path):
             self._exec = kwargs.get("shell", "/bin/bash")
 
         def write_script(self, ws_path, step):
+            fault("write_script", step.name)
             script = os.path.join(ws_path, "%s.scripted.sh" % step.name)
             with open(script, "w") as f:
                 f.write("#!%s\n\n%s\n" % (self._exec, step.run["cmd"]))
@@ -169,6 +182,7 @@ def _register_scripted(path):
         def submit(self, step, path, cwd, job_map=None, env=None):
             # under --hashws step.name is the digest of the parameter combination (shared by several
             # instances): instances are told apart by their workspace `cwd`
+            fault("submit", step.name)
             n = st["nsub"].get(cwd, 0)
             st["nsub"][cwd] = n + 1
             outs = lookup("submit", step.name, cwd) or []
@@ -183,6 +197,7 @@ def _register_scripted(path):
             return SubmissionRecord(SubmissionCode.ERROR, 1)
 
         def check_jobs(self, joblist):
+            fault("check_jobs")
             qs = cfg.get("qcodes") or ["OK"]
             q = qs[min(st["nq"], len(qs) - 1)]
             st["nq"] += 1
@@ -204,6 +219,7 @@ def _register_scripted(path):
             return JobStatusCode[q], out
 
         def cancel_jobs(self, joblist):
+            fault("cancel_jobs")
             rec({"call": "cancel_jobs", "jobs": [str(j) for j in joblist]})
             st["cancelled"].update(str(j) for j in joblist)
             return CancellationRecord(CancelCode.OK, 0)
